@@ -13,9 +13,12 @@ theories/ConverterM.vos theories/ConverterM.vok theories/ConverterM.required_vos
 theories/TransformerM.vo theories/TransformerM.glob theories/TransformerM.v.beautified theories/TransformerM.required_vo: theories/TransformerM.v theories/Num.vo theories/ConverterM.vo
 theories/TransformerM.vio: theories/TransformerM.v theories/Num.vio theories/ConverterM.vio
 theories/TransformerM.vos theories/TransformerM.vok theories/TransformerM.required_vos: theories/TransformerM.v theories/Num.vos theories/ConverterM.vos
-theories/Exec.vo theories/Exec.glob theories/Exec.v.beautified theories/Exec.required_vo: theories/Exec.v theories/Num.vo theories/NumF.vo theories/ConverterM.vo theories/TransformerM.vo
-theories/Exec.vio: theories/Exec.v theories/Num.vio theories/NumF.vio theories/ConverterM.vio theories/TransformerM.vio
-theories/Exec.vos theories/Exec.vok theories/Exec.required_vos: theories/Exec.v theories/Num.vos theories/NumF.vos theories/ConverterM.vos theories/TransformerM.vos
+theories/FilterM.vo theories/FilterM.glob theories/FilterM.v.beautified theories/FilterM.required_vo: theories/FilterM.v theories/Num.vo theories/ConverterM.vo theories/TransformerM.vo
+theories/FilterM.vio: theories/FilterM.v theories/Num.vio theories/ConverterM.vio theories/TransformerM.vio
+theories/FilterM.vos theories/FilterM.vok theories/FilterM.required_vos: theories/FilterM.v theories/Num.vos theories/ConverterM.vos theories/TransformerM.vos
+theories/Exec.vo theories/Exec.glob theories/Exec.v.beautified theories/Exec.required_vo: theories/Exec.v theories/Num.vo theories/NumF.vo theories/ConverterM.vo theories/TransformerM.vo theories/FilterM.vo
+theories/Exec.vio: theories/Exec.v theories/Num.vio theories/NumF.vio theories/ConverterM.vio theories/TransformerM.vio theories/FilterM.vio
+theories/Exec.vos theories/Exec.vok theories/Exec.required_vos: theories/Exec.v theories/Num.vos theories/NumF.vos theories/ConverterM.vos theories/TransformerM.vos theories/FilterM.vos
 theories/proofs/VecLib.vo theories/proofs/VecLib.glob theories/proofs/VecLib.v.beautified theories/proofs/VecLib.required_vo: theories/proofs/VecLib.v theories/Num.vo
 theories/proofs/VecLib.vio: theories/proofs/VecLib.v theories/Num.vio
 theories/proofs/VecLib.vos theories/proofs/VecLib.vok theories/proofs/VecLib.required_vos: theories/proofs/VecLib.v theories/Num.vos
@@ -31,3 +34,54 @@ theories/props/C04.vos theories/props/C04.vok theories/props/C04.required_vos: t
 theories/props/C06.vo theories/props/C06.glob theories/props/C06.v.beautified theories/props/C06.required_vo: theories/props/C06.v theories/Num.vo theories/NumR.vo theories/ConverterM.vo theories/proofs/ConverterP.vo
 theories/props/C06.vio: theories/props/C06.v theories/Num.vio theories/NumR.vio theories/ConverterM.vio theories/proofs/ConverterP.vio
 theories/props/C06.vos theories/props/C06.vok theories/props/C06.required_vos: theories/props/C06.v theories/Num.vos theories/NumR.vos theories/ConverterM.vos theories/proofs/ConverterP.vos
+theories/proofs/LowQP.vo theories/proofs/LowQP.glob theories/proofs/LowQP.v.beautified theories/proofs/LowQP.required_vo: theories/proofs/LowQP.v theories/Num.vo theories/NumR.vo theories/ConverterM.vo theories/TransformerM.vo theories/proofs/VecLib.vo
+theories/proofs/LowQP.vio: theories/proofs/LowQP.v theories/Num.vio theories/NumR.vio theories/ConverterM.vio theories/TransformerM.vio theories/proofs/VecLib.vio
+theories/proofs/LowQP.vos theories/proofs/LowQP.vok theories/proofs/LowQP.required_vos: theories/proofs/LowQP.v theories/Num.vos theories/NumR.vos theories/ConverterM.vos theories/TransformerM.vos theories/proofs/VecLib.vos
+theories/props/C15.vo theories/props/C15.glob theories/props/C15.v.beautified theories/props/C15.required_vo: theories/props/C15.v theories/Num.vo theories/NumR.vo theories/ConverterM.vo theories/TransformerM.vo theories/proofs/LowQP.vo
+theories/props/C15.vio: theories/props/C15.v theories/Num.vio theories/NumR.vio theories/ConverterM.vio theories/TransformerM.vio theories/proofs/LowQP.vio
+theories/props/C15.vos theories/props/C15.vok theories/props/C15.required_vos: theories/props/C15.v theories/Num.vos theories/NumR.vos theories/ConverterM.vos theories/TransformerM.vos theories/proofs/LowQP.vos
+theories/proofs/LorchP.vo theories/proofs/LorchP.glob theories/proofs/LorchP.v.beautified theories/proofs/LorchP.required_vo: theories/proofs/LorchP.v theories/Num.vo theories/NumR.vo theories/ConverterM.vo theories/TransformerM.vo theories/proofs/VecLib.vo theories/proofs/ConverterP.vo
+theories/proofs/LorchP.vio: theories/proofs/LorchP.v theories/Num.vio theories/NumR.vio theories/ConverterM.vio theories/TransformerM.vio theories/proofs/VecLib.vio theories/proofs/ConverterP.vio
+theories/proofs/LorchP.vos theories/proofs/LorchP.vok theories/proofs/LorchP.required_vos: theories/proofs/LorchP.v theories/Num.vos theories/NumR.vos theories/ConverterM.vos theories/TransformerM.vos theories/proofs/VecLib.vos theories/proofs/ConverterP.vos
+theories/proofs/NamedP.vo theories/proofs/NamedP.glob theories/proofs/NamedP.v.beautified theories/proofs/NamedP.required_vo: theories/proofs/NamedP.v theories/Num.vo theories/NumR.vo theories/ConverterM.vo theories/TransformerM.vo theories/proofs/VecLib.vo theories/proofs/ConverterP.vo
+theories/proofs/NamedP.vio: theories/proofs/NamedP.v theories/Num.vio theories/NumR.vio theories/ConverterM.vio theories/TransformerM.vio theories/proofs/VecLib.vio theories/proofs/ConverterP.vio
+theories/proofs/NamedP.vos theories/proofs/NamedP.vok theories/proofs/NamedP.required_vos: theories/proofs/NamedP.v theories/Num.vos theories/NumR.vos theories/ConverterM.vos theories/TransformerM.vos theories/proofs/VecLib.vos theories/proofs/ConverterP.vos
+theories/props/C14.vo theories/props/C14.glob theories/props/C14.v.beautified theories/props/C14.required_vo: theories/props/C14.v theories/Num.vo theories/NumR.vo theories/ConverterM.vo theories/TransformerM.vo theories/proofs/ConverterP.vo theories/proofs/LorchP.vo
+theories/props/C14.vio: theories/props/C14.v theories/Num.vio theories/NumR.vio theories/ConverterM.vio theories/TransformerM.vio theories/proofs/ConverterP.vio theories/proofs/LorchP.vio
+theories/props/C14.vos theories/props/C14.vok theories/props/C14.required_vos: theories/props/C14.v theories/Num.vos theories/NumR.vos theories/ConverterM.vos theories/TransformerM.vos theories/proofs/ConverterP.vos theories/proofs/LorchP.vos
+theories/props/C05.vo theories/props/C05.glob theories/props/C05.v.beautified theories/props/C05.required_vo: theories/props/C05.v theories/Num.vo theories/NumR.vo theories/ConverterM.vo theories/TransformerM.vo theories/proofs/ConverterP.vo theories/proofs/NamedP.vo
+theories/props/C05.vio: theories/props/C05.v theories/Num.vio theories/NumR.vio theories/ConverterM.vio theories/TransformerM.vio theories/proofs/ConverterP.vio theories/proofs/NamedP.vio
+theories/props/C05.vos theories/props/C05.vok theories/props/C05.required_vos: theories/props/C05.v theories/Num.vos theories/NumR.vos theories/ConverterM.vos theories/TransformerM.vos theories/proofs/ConverterP.vos theories/proofs/NamedP.vos
+theories/FortranM.vo theories/FortranM.glob theories/FortranM.v.beautified theories/FortranM.required_vo: theories/FortranM.v theories/Num.vo
+theories/FortranM.vio: theories/FortranM.v theories/Num.vio
+theories/FortranM.vos theories/FortranM.vok theories/FortranM.required_vos: theories/FortranM.v theories/Num.vos
+theories/proofs/CropP.vo theories/proofs/CropP.glob theories/proofs/CropP.v.beautified theories/proofs/CropP.required_vo: theories/proofs/CropP.v theories/Num.vo theories/NumR.vo theories/ConverterM.vo theories/TransformerM.vo theories/proofs/VecLib.vo theories/proofs/ConverterP.vo
+theories/proofs/CropP.vio: theories/proofs/CropP.v theories/Num.vio theories/NumR.vio theories/ConverterM.vio theories/TransformerM.vio theories/proofs/VecLib.vio theories/proofs/ConverterP.vio
+theories/proofs/CropP.vos theories/proofs/CropP.vok theories/proofs/CropP.required_vos: theories/proofs/CropP.v theories/Num.vos theories/NumR.vos theories/ConverterM.vos theories/TransformerM.vos theories/proofs/VecLib.vos theories/proofs/ConverterP.vos
+theories/proofs/TransformerP.vo theories/proofs/TransformerP.glob theories/proofs/TransformerP.v.beautified theories/proofs/TransformerP.required_vo: theories/proofs/TransformerP.v theories/Num.vo theories/NumR.vo theories/ConverterM.vo theories/TransformerM.vo theories/FortranM.vo theories/proofs/VecLib.vo theories/proofs/ConverterP.vo theories/proofs/CropP.vo
+theories/proofs/TransformerP.vio: theories/proofs/TransformerP.v theories/Num.vio theories/NumR.vio theories/ConverterM.vio theories/TransformerM.vio theories/FortranM.vio theories/proofs/VecLib.vio theories/proofs/ConverterP.vio theories/proofs/CropP.vio
+theories/proofs/TransformerP.vos theories/proofs/TransformerP.vok theories/proofs/TransformerP.required_vos: theories/proofs/TransformerP.v theories/Num.vos theories/NumR.vos theories/ConverterM.vos theories/TransformerM.vos theories/FortranM.vos theories/proofs/VecLib.vos theories/proofs/ConverterP.vos theories/proofs/CropP.vos
+theories/proofs/DstP.vo theories/proofs/DstP.glob theories/proofs/DstP.v.beautified theories/proofs/DstP.required_vo: theories/proofs/DstP.v 
+theories/proofs/DstP.vio: theories/proofs/DstP.v 
+theories/proofs/DstP.vos theories/proofs/DstP.vok theories/proofs/DstP.required_vos: theories/proofs/DstP.v 
+theories/proofs/RoundTripP.vo theories/proofs/RoundTripP.glob theories/proofs/RoundTripP.v.beautified theories/proofs/RoundTripP.required_vo: theories/proofs/RoundTripP.v theories/Num.vo theories/NumR.vo theories/ConverterM.vo theories/TransformerM.vo theories/proofs/VecLib.vo theories/proofs/ConverterP.vo theories/proofs/DstP.vo
+theories/proofs/RoundTripP.vio: theories/proofs/RoundTripP.v theories/Num.vio theories/NumR.vio theories/ConverterM.vio theories/TransformerM.vio theories/proofs/VecLib.vio theories/proofs/ConverterP.vio theories/proofs/DstP.vio
+theories/proofs/RoundTripP.vos theories/proofs/RoundTripP.vok theories/proofs/RoundTripP.required_vos: theories/proofs/RoundTripP.v theories/Num.vos theories/NumR.vos theories/ConverterM.vos theories/TransformerM.vos theories/proofs/VecLib.vos theories/proofs/ConverterP.vos theories/proofs/DstP.vos
+theories/proofs/AnchorsP.vo theories/proofs/AnchorsP.glob theories/proofs/AnchorsP.v.beautified theories/proofs/AnchorsP.required_vo: theories/proofs/AnchorsP.v 
+theories/proofs/AnchorsP.vio: theories/proofs/AnchorsP.v 
+theories/proofs/AnchorsP.vos theories/proofs/AnchorsP.vok theories/proofs/AnchorsP.required_vos: theories/proofs/AnchorsP.v 
+theories/props/C01.vo theories/props/C01.glob theories/props/C01.v.beautified theories/props/C01.required_vo: theories/props/C01.v theories/Num.vo theories/NumR.vo theories/ConverterM.vo theories/TransformerM.vo theories/proofs/DstP.vo theories/proofs/RoundTripP.vo theories/proofs/AnchorsP.vo
+theories/props/C01.vio: theories/props/C01.v theories/Num.vio theories/NumR.vio theories/ConverterM.vio theories/TransformerM.vio theories/proofs/DstP.vio theories/proofs/RoundTripP.vio theories/proofs/AnchorsP.vio
+theories/props/C01.vos theories/props/C01.vok theories/props/C01.required_vos: theories/props/C01.v theories/Num.vos theories/NumR.vos theories/ConverterM.vos theories/TransformerM.vos theories/proofs/DstP.vos theories/proofs/RoundTripP.vos theories/proofs/AnchorsP.vos
+theories/props/C02.vo theories/props/C02.glob theories/props/C02.v.beautified theories/props/C02.required_vo: theories/props/C02.v theories/Num.vo theories/NumR.vo theories/ConverterM.vo theories/TransformerM.vo theories/FortranM.vo theories/proofs/ConverterP.vo theories/proofs/CropP.vo theories/proofs/TransformerP.vo
+theories/props/C02.vio: theories/props/C02.v theories/Num.vio theories/NumR.vio theories/ConverterM.vio theories/TransformerM.vio theories/FortranM.vio theories/proofs/ConverterP.vio theories/proofs/CropP.vio theories/proofs/TransformerP.vio
+theories/props/C02.vos theories/props/C02.vok theories/props/C02.required_vos: theories/props/C02.v theories/Num.vos theories/NumR.vos theories/ConverterM.vos theories/TransformerM.vos theories/FortranM.vos theories/proofs/ConverterP.vos theories/proofs/CropP.vos theories/proofs/TransformerP.vos
+theories/props/C13.vo theories/props/C13.glob theories/props/C13.v.beautified theories/props/C13.required_vo: theories/props/C13.v theories/Num.vo theories/NumR.vo theories/ConverterM.vo theories/TransformerM.vo theories/proofs/ConverterP.vo theories/proofs/CropP.vo
+theories/props/C13.vio: theories/props/C13.v theories/Num.vio theories/NumR.vio theories/ConverterM.vio theories/TransformerM.vio theories/proofs/ConverterP.vio theories/proofs/CropP.vio
+theories/props/C13.vos theories/props/C13.vok theories/props/C13.required_vos: theories/props/C13.v theories/Num.vos theories/NumR.vos theories/ConverterM.vos theories/TransformerM.vos theories/proofs/ConverterP.vos theories/proofs/CropP.vos
+theories/proofs/UncertP.vo theories/proofs/UncertP.glob theories/proofs/UncertP.v.beautified theories/proofs/UncertP.required_vo: theories/proofs/UncertP.v theories/Num.vo theories/NumR.vo theories/ConverterM.vo theories/TransformerM.vo theories/proofs/VecLib.vo
+theories/proofs/UncertP.vio: theories/proofs/UncertP.v theories/Num.vio theories/NumR.vio theories/ConverterM.vio theories/TransformerM.vio theories/proofs/VecLib.vio
+theories/proofs/UncertP.vos theories/proofs/UncertP.vok theories/proofs/UncertP.required_vos: theories/proofs/UncertP.v theories/Num.vos theories/NumR.vos theories/ConverterM.vos theories/TransformerM.vos theories/proofs/VecLib.vos
+theories/props/C07.vo theories/props/C07.glob theories/props/C07.v.beautified theories/props/C07.required_vo: theories/props/C07.v theories/Num.vo theories/NumR.vo theories/ConverterM.vo theories/TransformerM.vo theories/proofs/UncertP.vo
+theories/props/C07.vio: theories/props/C07.v theories/Num.vio theories/NumR.vio theories/ConverterM.vio theories/TransformerM.vio theories/proofs/UncertP.vio
+theories/props/C07.vos theories/props/C07.vok theories/props/C07.required_vos: theories/props/C07.v theories/Num.vos theories/NumR.vos theories/ConverterM.vos theories/TransformerM.vos theories/proofs/UncertP.vos
